@@ -46,6 +46,52 @@ fn cases_special(_rng: &mut Rng, sink: &mut dyn FnMut(J) -> bool) {
             return;
         }
     }
+    // (a) designating paths mixed with inert ones (paths that name no claim) in every position;
+    // (b) "" as a member name, addressed by doubled dots
+    {
+        let claims = std(json!({
+            "a": {"b": 1, "": {"b": 2, "c": [3, 4], "": {"y": 5}}, "c": 3},
+            "": {"x": 1, "": {"y": 2}},
+            "pets": [{"name": "n0", "chip": 1}, {"name": "n1", "chip": 2}],
+            "o": {"k": 1, "l": [7, 8]}
+        }));
+        let designating = ["$.pets[1]", "$.pets[0].chip", "$.a.b", "$.o.l[1]"];
+        let inert = ["$.pets.name", "$.pets.chip", "$.o[0]", "$.zz", "$.a.b.c.d", "$.pets[0].name.x", "$.pets[5]", "$.o.k[0]", "$.pets[0][0]", "$.o.l.x", "$.a[0]", "$.o..k", "$.a...b", "$.pets..name", "$.o.l[1].", "$.o.k."];
+        let dotted = ["$.a..b", "$.a..c[0]", "$.a..c", "$.a...y", "$..x", "$...y", "$.a.", "$.", "$..", "$.a..", "$.a..zz", "$.o.", "$.pets[0].", "$.a.b", "$.a..b"];
+        let mut sets: Vec<Vec<String>> = Vec::new();
+        for i in inert {
+            let d: Vec<String> = designating.iter().map(|s| s.to_string()).collect();
+            let mut front = vec![i.to_string()];
+            front.extend(d.clone());
+            sets.push(front);
+            let mut back = d.clone();
+            back.push(i.to_string());
+            sets.push(back);
+            let mut mid = d.clone();
+            mid.insert(2, i.to_string());
+            sets.push(mid);
+            sets.push(vec![i.to_string(), designating[0].to_string()]);
+            sets.push(vec![designating[1].to_string(), i.to_string()]);
+            sets.push(vec![i.to_string()]);
+        }
+        for p in dotted {
+            sets.push(vec![p.to_string()]);
+            sets.push(vec![p.to_string(), "$.a.b".to_string()]);
+            sets.push(vec!["$.pets[1]".to_string(), p.to_string()]);
+        }
+        sets.push(dotted.iter().map(|s| s.to_string()).collect());
+        let mut k = 0usize;
+        for set in sets {
+            for decoys in [false, true] {
+                k += 1;
+                let mut cfg = Cfg::simple(claims.clone(), Strategy::Custom(set.clone())).variant(k);
+                cfg.decoys = decoys;
+                if !sink(cfg.to_json()) {
+                    return;
+                }
+            }
+        }
+    }
     // a user claim named `_sd_alg` at the top level (and nested, where it is an ordinary claim)
     let mut alg_n = 0usize;
     for v in [json!("sha3-512"), json!("sha-256"), json!("md5"), json!(7), json!({"alg": "sha-512"}), json!(null), json!(["sha-256"])] {
